@@ -119,6 +119,8 @@ class ManagerRig:
         self.sessions = 0
         self._auto_closed = False
         self._extra_done = set()
+        self._stall_mark = None
+        self._stall_iters = 0
         self.main_created = False
         self.frozen = False
 
@@ -170,7 +172,10 @@ class ManagerRig:
                     await asyncio.sleep(d)
                 if spec["o"] == "fail":
                     rig.record("attempt_fail", idx=idx)
-                    raise EXC_TYPES.get(spec.get("exc"), OSError)(f"simulated connect failure #{idx}")
+                    cls_ = EXC_TYPES.get(spec.get("exc"), OSError)
+                    if spec.get("noargs"):
+                        raise cls_()  # e.g. TimeoutError() from wait_for, EOFError(): exceptions carry no message
+                    raise cls_(f"simulated connect failure #{idx}")
                 transport = FakeTransport(rig, len(rig.transports))
                 rig.transports.append(transport)
                 rig.live_set.add(transport.conn_id)
@@ -218,6 +223,15 @@ class ManagerRig:
         return "backoff_sleep"
 
     def _monitor(self, loop) -> None:
+        # livelock: the loop keeps iterating at one virtual instant without any observable event
+        mark = (len(self.events), loop.time())
+        if mark == self._stall_mark:
+            self._stall_iters += 1
+            if self._stall_iters == 3000 and self.loop_running and self.close_time is None:
+                self.violate("H3", "event-loop-spins-without-progress", f"3000 loop iterations at t={loop.time()} without a connection attempt, timer or any other event after {self.attempts} attempts: the manager is busy-looping instead of reconnecting")
+        else:
+            self._stall_mark = mark
+            self._stall_iters = 0
         live = len(self.live_set)
         if live > 1:
             self.violate("I1", "two-live-connections", f"{live} live connections at t={loop.time()}")
